@@ -327,6 +327,10 @@ func runC06(c *Ctx) {
 				c.Ob("C06-R4", "EVM."+name+" reports an unaffordable value transfer with the sentinel vm.ErrInsufficientBalance itself", c.Position(call.Pos()), t == "vm.ErrInsufficientBalance", "returns "+t)
 			}
 		}
+		c.SentinelIdentityRule("C06-R4", func(g *ssa.Global) bool {
+			p := relPkg(g.Pkg.Pkg.Path())
+			return p == "core" || p == "core/vm" || p == "core/state" || p == "consensus" || p == "core/types"
+		})
 		c.Ob("C06-R4", "unaffordable-transfer returns found in Call, CallCode and Create", "", nsent >= 3, fmt.Sprintf("%d", nsent))
 		td := c.Fn("core:(*StateTransition).TransitionDb")
 		ftd := c.Facts(td)
